@@ -333,10 +333,10 @@ class Slicer:
         if isinstance(item, tuple) and len(item) == 2:
             if isinstance(item[0], int):
                 row = item[0]
-                item = (slice(row, row + 1), item[1])
+                item = (slice(row, row + 1 if row != -1 else None), item[1])  # (slice(-1, 0) would be empty)
             if isinstance(item[1], int):
                 col = item[1]
-                item = (item[0], slice(col, col + 1))
+                item = (item[0], slice(col, col + 1 if col != -1 else None))
             if isinstance(item[0], slice) and isinstance(item[1], slice):
                 new_slicer = copy(self)
                 new_slicer.__dict__.pop('shape', None)  # cached for the parent selection
